@@ -430,6 +430,8 @@ class SymPattern:
         c = s.const()
         if c is not None:
             return [SymStr.of(x) for x in self.rx.split(c, maxsplit)]
+        if isinstance(maxsplit, int):
+            maxsplit = int(maxsplit)        # (an IntFlag passed by mistake is still an int for CPython)
         if self.groups or not isinstance(maxsplit, int) or maxsplit < 0:
             # not modelled: concretise (forks over the feasible values; normally
             # the path condition already determines the text)
